@@ -461,15 +461,26 @@ cJSON *change_password(const struct peer *p, const cJSON *request, const char *u
 			goto out;
 		}
 
+		/* Kept to take the change back if it cannot be made persistent. */
+		cJSON *old_password = cJSON_Duplicate(password, 1);
+		if (old_password == NULL) {
+			response = create_error_response_from_request(p, request, INTERNAL_ERROR, "reason", "not enough memory");
+			goto out;
+		}
+
 		if (cJSON_SetValuestring(password, encrypted) == NULL) {
+			cJSON_Delete(old_password);
 			response = create_error_response_from_request(p, request, INTERNAL_ERROR, "reason", "not enough memory");
 			goto out;
 		}
 
 		if (write_user_data() < 0) {
+			/* A refused change must not authenticate, nor reach the disk with somebody else's change. */
+			cJSON_ReplaceItemViaPointer(user, password, old_password);
 			response = create_error_response_from_request(p, request, INTERNAL_ERROR, "reason", "Could not write password file");
 			goto out;
 		}
+		cJSON_Delete(old_password);
 	} else {
 		response = create_error_response_from_request(p, request, INVALID_PARAMS, "reason", "user not allowed to change password");
 		goto out;
